@@ -423,8 +423,63 @@ func (x *gRun) doSet(k int, cost int64, ttl time.Duration) {
 	x.c.R.DistinctKey("%s/set/%s/pend%d/ttl%v", x.cs.Cfg.KeyKind, cls, min(len(m.fifo), 3), ttl != 0)
 }
 
+// doDelBlocked issues Del while the write buffer is full: the call removes the entry at once, then blocks on its
+// tombstone send until the applier has applied one item. The applier is stepped while the call is in flight.
+func (x *gRun) doDelBlocked(k int) {
+	m := x.m
+	n0 := x.l.NumCallbacks()
+	var cbs []gCB
+	_, had := m.store[k]
+	if e, has := m.store[k]; has {
+		cbs = append(cbs, gCB{lab.EvOnExit, e.val})
+		delete(m.store, k)
+	}
+	reached := make(chan struct{}, 1)
+	x.g.Other = func(point int, arg uint64) {
+		if point == ristretto.VPDelAfterStore {
+			select {
+			case reached <- struct{}{}:
+			default:
+			}
+		}
+	}
+	defer func() { x.g.Other = nil }()
+	done := make(chan struct{})
+	go func() { x.cl.Del(k); close(done) }()
+	select {
+	case <-reached:
+	case <-time.After(10 * time.Second):
+		x.mismatch("harness", "Del never reached the point after its immediate removal")
+		return
+	}
+	x.tr("Del(k%d) called with a full write buffer [buffered=%d]", k, len(m.fifo))
+	x.expectCallbacks(n0, cbs, fmt.Sprintf("immediate part of Del(k%d)", k))
+	x.step() // makes room: the blocked tombstone send completes
+	if x.failed {
+		return
+	}
+	select {
+	case <-done:
+	case <-time.After(30 * time.Second):
+		x.mismatch("call-stuck", fmt.Sprintf("Del(k%d) still blocked 30 s after the applier made room in the write buffer", k))
+		return
+	}
+	m.fifo = append(m.fifo, gItem{flag: gDelete, key: k})
+	m.enq++
+	if !x.syncBuffer(fmt.Sprintf("after the blocked Del(k%d) returned", k)) {
+		return
+	}
+	x.awaitHeldIfNeeded()
+	x.c.R.Obs("gated_blocked_dels", 1)
+	x.c.R.DistinctKey("del-blocked/resident=%v", had)
+}
+
 func (x *gRun) doDel(k int) {
 	m := x.m
+	if !m.closed && m.held && m.chanLen() >= m.B && x.opsDone%2 == 0 {
+		x.doDelBlocked(k)
+		return
+	}
 	if !m.closed {
 		x.makeRoom()
 		if x.failed {
